@@ -49,6 +49,7 @@ pub struct Shard {
 }
 
 pub const MAX_VIOLATIONS_PER_SHARD: usize = 40;
+pub const MAX_DISTINCT_PER_SHARD: usize = 2_000_000;
 
 impl Shard {
     pub fn hit(&mut self, key: &str) { *self.cov.entry(key.to_string()).or_default() += 1; }
@@ -68,7 +69,12 @@ impl Shard {
     pub fn get(&self, key: &str) -> u64 { self.cov.get(key).copied().unwrap_or(0) }
 
     /// record a distinct non-trivial case by its hash
-    pub fn nontrivial(&mut self, h: u64) { self.distinct.insert(h); }
+    /// (at most `MAX_DISTINCT_PER_SHARD` are kept, so the reported count is a lower bound)
+    pub fn nontrivial(&mut self, h: u64) {
+        if self.distinct.len() < MAX_DISTINCT_PER_SHARD {
+            self.distinct.insert(h);
+        }
+    }
 
     pub fn sample(&mut self, v: impl FnOnce() -> Value) {
         if self.samples.len() < 3 {
